@@ -34,9 +34,12 @@ type rwVal struct {
 
 type rwCase struct {
 	Fields []rwField `json:"fields"`
-	Vals   []rwVal   `json:"vals"`
-	Text   []int     `json:"text"`
-	Bin    []int     `json:"bin"`
+	// a single row ...
+	Vals []rwVal `json:"vals"`
+	Text []int   `json:"text"`
+	Bin  []int   `json:"bin"`
+	// ... or a result set of several rows over the same fields
+	Set []rwRow `json:"set"`
 }
 
 func rwBytes(a []int) []byte {
@@ -327,12 +330,74 @@ func rwValClass(f rwField, v rwVal) string {
 	return "value"
 }
 
+// rwRow is one row of a result set: canonical values, text-protocol row, the specification's binary row
+type rwRow struct {
+	Vals []rwVal `json:"vals"`
+	Text []int   `json:"text"`
+	Bin  []int   `json:"bin"`
+}
+
+func rwNorm(ds []rwDec) []rwDec {
+	for j := range ds {
+		if (ds[j].k == "str" || ds[j].k == "dec") && ds[j].b == nil {
+			ds[j].b = []byte{}
+		}
+	}
+	return ds
+}
+
+func rwWant(vals []rwVal) []rwDec {
+	want := make([]rwDec, len(vals))
+	for j, v := range vals {
+		want[j] = rwDec{k: v.K, n: v.N}
+		if v.B != nil {
+			want[j].b = rwBytes(v.B)
+		}
+	}
+	return rwNorm(want)
+}
+
+// rwCompareRow decodes one real binary row and compares it column by column with the row's values.
+// where = "" for a single-row result, else the position of the row in its result set.
+func rwCompareRow(res *verifkit.Result, fields []rwField, row *rwRow, got []byte, where string, names []string) {
+	want := rwWant(row.Vals)
+	dec := rwNorm(rwDecodeRow(fields, got))
+	ndev := len(res.Devs)
+	for j := range want {
+		cls := fmt.Sprintf("%s %s%s", rwTypeName(fields[j].T), rwValClass(fields[j], row.Vals[j]), where)
+		if j >= len(dec) {
+			break
+		}
+		if row.Vals[j].K == "str" && (dec[j].k == "bad" || !rwEqual(dec[j], want[j])) {
+			// column j starts at dec[j].p (everything before it decoded to the right values)
+			off := dec[j].p
+			raw := want[j].b
+			withPrefix := append(rwLenPrefix(len(raw)), raw...)
+			if off <= len(got) && bytes.HasPrefix(got[off:], raw) && !bytes.HasPrefix(got[off:], withPrefix) {
+				res.Dev("C13 value-without-length-prefix "+rwTypeName(fields[j].T)+where, "column %d (%s): the value bytes are appended without their length prefix: row %x, the specification's row is %x (text row %x)", j, cls, got, rwBytes(row.Bin), rwBytes(row.Text))
+				break
+			}
+		}
+		if dec[j].k == "bad" {
+			res.Dev("C13 undecodable-from-column "+cls, "column %d (%s): the binary row %x cannot be decoded from here on; text row %x; the specification's row is %x", j, cls, got, rwBytes(row.Text), rwBytes(row.Bin))
+			break
+		}
+		if !rwEqual(dec[j], want[j]) {
+			res.Dev("C13 different-value "+cls, "column %d (%s): the binary row %x decodes to %v, the text value is %v (text row %x; the specification's row is %x)", j, cls, got, dec[j], want[j], rwBytes(row.Text), rwBytes(row.Bin))
+			break
+		}
+	}
+	if len(dec) > len(want) && len(res.Devs) == ndev {
+		res.Dev("C13 trailing-bytes-after-row "+strings.Join(names, ",")+where, "the binary row %x has bytes after the last column; the specification's row is %x", got, rwBytes(row.Bin))
+	}
+}
+
 func TestVerifBinaryRows(t *testing.T) {
 	out, err := verifkit.OpenOut()
 	if err != nil {
 		t.Fatal(err)
 	}
-	nerr, ncols, nrows := 0, 0, 0
+	nerr, ncols, nrows, nsets := 0, 0, 0, 0
 	errKinds := map[string]int{}
 	n, err := verifkit.EachCase(func(i int, raw json.RawMessage) error {
 		var c rwCase
@@ -340,36 +405,29 @@ func TestVerifBinaryRows(t *testing.T) {
 			return err
 		}
 		res := &verifkit.Result{Case: i}
-		want := make([]rwDec, len(c.Vals))
-		for j, v := range c.Vals {
-			want[j] = rwDec{k: v.K, n: v.N}
-			if v.B != nil {
-				want[j].b = rwBytes(v.B)
-			}
-			if v.K == "str" || v.K == "dec" {
-				if want[j].b == nil {
-					want[j].b = []byte{}
-				}
-			}
-		}
-		norm := func(ds []rwDec) []rwDec {
-			for j := range ds {
-				if (ds[j].k == "str" || ds[j].k == "dec") && ds[j].b == nil {
-					ds[j].b = []byte{}
-				}
-			}
-			return ds
-		}
-		// 1. the decoder agrees with the specification on the specification's own bytes
-		specDec := norm(rwDecodeRow(c.Fields, rwBytes(c.Bin)))
-		okSpec := len(specDec) == len(want)
-		for j := 0; okSpec && j < len(want); j++ {
-			okSpec = rwEqual(specDec[j], want[j])
-		}
-		if !okSpec {
-			res.Dev("C13 harness decoder-disagrees-with-specification", "decoding the specification's row %x gives %v, the case says %v", rwBytes(c.Bin), specDec, want)
+		rows := c.Set
+		if len(rows) == 0 {
+			rows = []rwRow{{Vals: c.Vals, Text: c.Text, Bin: c.Bin}}
 		} else {
-			// 2. the real conversion
+			nsets++
+		}
+		// 1. the decoder agrees with the specification on the specification's own bytes, row by row
+		okSpec := true
+		for k := range rows {
+			want := rwWant(rows[k].Vals)
+			specDec := rwNorm(rwDecodeRow(c.Fields, rwBytes(rows[k].Bin)))
+			ok := len(specDec) == len(want)
+			for j := 0; ok && j < len(want); j++ {
+				ok = rwEqual(specDec[j], want[j])
+			}
+			if !ok {
+				okSpec = false
+				res.Dev("C13 harness decoder-disagrees-with-specification", "decoding the specification's row %x gives %v, the case says %v", rwBytes(rows[k].Bin), specDec, want)
+				break
+			}
+		}
+		if okSpec {
+			// 2. the real conversion: every text row through ParseText, all rows of the result set through one BuildBinaryResultset
 			fields := make([]*Field, len(c.Fields))
 			for j, f := range c.Fields {
 				fl := uint16(0)
@@ -378,66 +436,71 @@ func TestVerifBinaryRows(t *testing.T) {
 				}
 				fields[j] = &Field{Name: []byte(fmt.Sprintf("c%d", j)), Type: uint8(f.T), Flag: fl}
 			}
-			var got []byte
+			var got []RowData
 			var cerr error
 			stage := ""
 			pan, msg, _ := verifkit.Catch(func() {
-				vals, err := RowData(rwBytes(c.Text)).ParseText(fields)
-				if err != nil {
-					cerr, stage = err, "ParseText"
+				var all [][]interface{}
+				var kept []rwRow
+				for k := range rows {
+					vals, err := RowData(rwBytes(rows[k].Text)).ParseText(fields)
+					if err == nil && len(rows) > 1 {
+						// a row the real code answers with an error (allowed) must not hide the other rows of the set
+						_, err = BuildBinaryResultset(fields, [][]interface{}{vals})
+					}
+					if err != nil {
+						if len(rows) == 1 {
+							cerr, stage = err, "ParseText"
+							return
+						}
+						nerr++
+						continue
+					}
+					all = append(all, vals)
+					kept = append(kept, rows[k])
+				}
+				rows = kept
+				if len(rows) == 0 {
 					return
 				}
-				rs, err := BuildBinaryResultset(fields, [][]interface{}{vals})
+				rs, err := BuildBinaryResultset(fields, all)
 				if err != nil {
 					cerr, stage = err, "BuildBinaryResultset"
 					return
 				}
-				if len(rs.RowDatas) != 1 {
-					cerr, stage = fmt.Errorf("%d rows", len(rs.RowDatas)), "BuildBinaryResultset"
+				if len(rs.RowDatas) != len(rows) {
+					cerr, stage = fmt.Errorf("%d rows for %d", len(rs.RowDatas), len(rows)), "row-count"
 					return
 				}
-				got = rs.RowDatas[0]
+				got = rs.RowDatas
 			})
-			nrows++
-			ncols += len(c.Fields)
+			nrows += len(rows)
+			ncols += len(c.Fields) * len(rows)
 			var names []string
 			for _, f := range c.Fields {
 				names = append(names, rwTypeName(f.T))
 			}
+			if len(names) > 4 {
+				names = append(names[:3], fmt.Sprintf("...(%d columns)", len(c.Fields)))
+			}
 			switch {
 			case pan:
-				res.Dev("C13 panic "+strings.Join(names, ","), "converting text row %x panics: %s", rwBytes(c.Text), msg)
+				res.Dev("C13 panic "+strings.Join(names, ","), "converting text rows panics: %s (first text row %x)", msg, rwBytes(rows[0].Text))
+			case cerr != nil && stage == "row-count":
+				res.Dev("C13 wrong-number-of-rows", "%v", cerr)
 			case cerr != nil:
 				nerr++ // allowed: "or the proxy reports an error instead of sending a different value"
 				errKinds[fmt.Sprintf("%s %s", stage, strings.Join(names, ","))]++
 			default:
-				dec := norm(rwDecodeRow(c.Fields, got))
-				for j := range want {
-					cls := fmt.Sprintf("%s %s", rwTypeName(c.Fields[j].T), rwValClass(c.Fields[j], c.Vals[j]))
-					if j >= len(dec) {
+				for k := range rows {
+					where := ""
+					if k > 0 {
+						where = " (row after the first of a result set)"
+					}
+					rwCompareRow(res, c.Fields, &rows[k], got[k], where, names)
+					if len(res.Devs) > 0 {
 						break
 					}
-					if c.Vals[j].K == "str" && (dec[j].k == "bad" || !rwEqual(dec[j], want[j])) {
-						// column j starts at dec[j].p (everything before it decoded to the right values)
-						off := dec[j].p
-						raw := want[j].b
-						withPrefix := append(rwLenPrefix(len(raw)), raw...)
-						if off <= len(got) && bytes.HasPrefix(got[off:], raw) && !bytes.HasPrefix(got[off:], withPrefix) {
-							res.Dev("C13 value-without-length-prefix "+rwTypeName(c.Fields[j].T), "column %d (%s): the value bytes are appended without their length prefix: row %x, the specification's row is %x (text row %x)", j, cls, got, rwBytes(c.Bin), rwBytes(c.Text))
-							break
-						}
-					}
-					if dec[j].k == "bad" {
-						res.Dev("C13 undecodable-from-column "+cls, "column %d (%s): the binary row %x cannot be decoded from here on; text row %x; the specification's row is %x", j, cls, got, rwBytes(c.Text), rwBytes(c.Bin))
-						break
-					}
-					if !rwEqual(dec[j], want[j]) {
-						res.Dev("C13 different-value "+cls, "column %d (%s): the binary row %x decodes to %v, the text value is %v (text row %x; the specification's row is %x)", j, cls, got, dec[j], want[j], rwBytes(c.Text), rwBytes(c.Bin))
-						break
-					}
-				}
-				if len(dec) > len(want) && len(res.Devs) == 0 {
-					res.Dev("C13 trailing-bytes-after-row "+strings.Join(names, ","), "the binary row %x has bytes after the last column; the specification's row is %x", got, rwBytes(c.Bin))
 				}
 			}
 		}
@@ -450,5 +513,5 @@ func TestVerifBinaryRows(t *testing.T) {
 	if err != nil {
 		t.Fatal(err)
 	}
-	out.Close(n, map[string]interface{}{"calls": nrows, "columns": ncols, "errors_returned": nerr, "error_kinds": errKinds})
+	out.Close(n, map[string]interface{}{"calls": nrows, "columns": ncols, "result_sets": nsets, "errors_returned": nerr, "error_kinds": errKinds})
 }
